@@ -216,3 +216,49 @@ Proof.
     apply (proj1 (B3 y Hy E)) in Hin. rewrite <- E1, <- E2 in Hin.
     destruct (chain_in _ _ _ _ _ C1 Hin) as (_ & _ & ?). exact H.
 Qed.
+
+(* ---------------------------------------------------------------- the four further operations *)
+(* a refused append (wrong trailing shape; cached build or not) changes nothing at all *)
+Theorem append_bad_nothing st i : fst (step st (OAppendBad i)) = st /\
+  exists e, snd (step st (OAppendBad i)) = RErr e.
+Proof.
+  simpl. destruct (is_live st i); [|split; [reflexivity|eexists; reflexivity]].
+  destruct (offs (getseq st i)), (scache (getseq st i)); (split; [reflexivity|eexists; reflexivity]).
+Qed.
+
+(* shrink_data() as an operation of histories *)
+Theorem shrink_op st i : reachable st -> is_live st i = true -> scache (getseq st i) = None ->
+  let st' := fst (step st (OShrink i)) in
+  snd (step st (OShrink i)) = ROk /\ seqs st' = seqs st /\
+  (forall x, x < length (seqs st) -> C st' x = C st x) /\
+  (forall x q y q', R st' x q y q' = R st x q y q').
+Proof.
+  intros Rch L Hc. simpl. rewrite L, Hc. simpl. split; [auto|].
+  apply (shrink_harmless st i Rch (is_live_lt _ _ L) Hc).
+Qed.
+
+(* seq[idx, cols] creates the object seq[idx] creates (one Z per row) *)
+Theorem get_cols_is_getitem st i ix : step st (OGetCols i ix) = step st (OGetIdx i ix).
+Proof. reflexivity. Qed.
+
+(* concatenate(seqs, axis=1): a new object with the element structure of the first operand whose rows
+   are the rows of the operands' COMPACT contents joined position by position; nothing else changes *)
+Theorem concat1_spec st j0 js : reachable st -> forallb (is_live st) (j0 :: js) = true ->
+  let rs := map (fun j => concat (C st j)) (j0 :: js) in
+  let n := sum (lens (getseq st j0)) in
+  n <> 0 ->
+  let st' := fst (step st (OConcat1 (j0 :: js))) in
+  if forallb (fun r => length r =? n) rs then
+    snd (step st (OConcat1 (j0 :: js))) = ROk /\
+    C st' (length (seqs st)) = elems_of (zip_rows rs) (cum_from 0 (lens (getseq st j0))) (lens (getseq st j0)) /\
+    (forall k, k < length (seqs st) -> getseq st' k = getseq st k /\ C st' k = C st k)
+  else snd (step st (OConcat1 (j0 :: js))) = RErr EValue /\ st' = st.
+Proof.
+  intros Rch L rs n Hn. pose proof (reachable_wf st Rch) as W. cbv zeta. unfold step. rewrite L.
+  apply Nat.eqb_neq in Hn. fold n. rewrite Hn.
+  change (map (fun j => concat (contents st (getseq st j))) (j0 :: js)) with rs.
+  destruct (forallb (fun r => length r =? n) rs) eqn:EF; cbn [fst snd]; [|auto].
+  simpl in L. apply andb_prop in L. destruct L as (L0 & _). apply is_live_lt in L0.
+  split; [auto|].
+  apply (copy_set_spec st j0 false (zip_rows rs) W L0).
+Qed.
